@@ -600,13 +600,58 @@ fn conc_pairs(run: &Run, fam: Arc<Fam>, bound: usize) {
     }
 }
 
+/// After the node's read cache has rolled over (more unrelated records than it holds have been stored since), the
+/// stored mutable record is still the one the deliveries determine — judged on what the store serves from disk.
+fn after_cache_rollover(run: &Run) {
+    for fam in [scratchpad_family(), transaction_family(), register_family()] {
+        let fam = Arc::new(fam);
+        let mut sys = SeqSys::new(fam.clone());
+        // the authentic items in ascending order of what they contribute, each by replication
+        let mut auth: Vec<usize> = (0..fam.items.len()).filter(|i| fam.items[*i].authentic && !fam.items[*i].alien).collect();
+        auth.sort_by_key(|i| (fam.items[*i].counter, fam.items[*i].entries.len(), *i));
+        let picks: Vec<usize> = match fam.family {
+            Family::Scratchpad => vec![auth[0], *auth.last().unwrap()],
+            _ => auth.iter().take(2).cloned().collect(),
+        };
+        let mut sink = vec![];
+        for i in &picks {
+            sys.step(&Deliver { item: *i, name: fam.items[*i].name.clone(), path: Path::Replicated }, &mut sink);
+        }
+        let want = sys.reference.expected(&fam);
+        // 30 unrelated chunks through the same node: the read cache (25 entries) forgets the record
+        for n in 0..30u32 {
+            let c = rec::chunk(format!("c07 rollover filler {n}").as_bytes());
+            let (node, r) = (sys.rig.node.clone(), rec::chunk_record(&c));
+            let _ = sys.rig.run("filler", async move { node.store_replicated_in_record(r).await });
+        }
+        let held = observe(&mut sys.rig, &fam);
+        let desc = json!({"engine": "directed", "family": format!("{:?}", fam.family), "delivered": picks.iter().map(|i| fam.items[*i].name.clone()).collect::<Vec<_>>(), "then": "30 unrelated chunks"});
+        run.case(desc.to_string().as_bytes(), true);
+        if held != want {
+            run.violation(
+                "stored-equals-reference",
+                "after-the-read-cache-rolled-over",
+                format!("{:?}: after {:?} and 30 unrelated records the node serves {held:?}, the deliveries determine {want:?}", fam.family, desc["delivered"]),
+                desc.clone(),
+            );
+        }
+        // and a lower / already contained delivery afterwards changes nothing
+        let again = picks[0];
+        sys.step(&Deliver { item: again, name: fam.items[again].name.clone(), path: Path::Replicated }, &mut sink);
+        let held2 = observe(&mut sys.rig, &fam);
+        if held2 != want {
+            run.violation("never-regresses", "after-the-read-cache-rolled-over", format!("{:?}: re-delivering {} after the cache rolled over left {held2:?}, expected {want:?}", fam.family, fam.items[again].name), desc);
+        }
+    }
+}
+
 pub fn main(tier: Option<&str>) {
     let run = Run::new("C07", "model_checking", tier);
     run.rule(
         "(seq) BFS, replay mode: deliveries of every item of a family (scratchpads: counters 1..3 x {owner-signed, other key, unsigned, foreign \
          owner under this key}; transactions: every vector of <=2 distinct entries (both orders) of a 5-entry pool incl. badly signed and foreign; registers: all 8 op subsets + forged; plus, against held content, a valid record of the *other* kind that shares the key (a scratchpad and a transaction set of one owner hash the same public key) \
          base) via {replication, unpaid update, paid upload} to one real Node, each run to quiescence; state = (held value, reference). \
-         (conc) every ordered pair of authentic single deliveries to one key, with and without prior content, both futures live: \
+         (rollover) per family two authentic deliveries, then 30 unrelated chunks so that the 25-entry read cache forgets the record, then the read and a re-delivery. (conc) every ordered pair of authentic single deliveries to one key, with and without prior content, both futures live: \
          stateless DFS over all interleavings of future polls / command handling / write and notification tasks with <=1(2) deviations from FIFO.",
     );
     run.assume("paid uploads use an always-paying contract stub (payment conditions are C03's subject)");
@@ -625,5 +670,6 @@ pub fn main(tier: Option<&str>) {
     for fam in &fams {
         conc_pairs(&run, fam.clone(), bound);
     }
+    after_cache_rollover(&run);
     run.finish();
 }
